@@ -126,8 +126,24 @@ fn rc_effective(p: &RcParams) -> [f32; 5] {
 }
 
 fn gen_rc_params(r: &mut Rng, one_qubit: bool) -> RcParams {
-    let qubits = if one_qubit { 1 } else { 2 + r.below(9) };
-    let depth = if r.chance(0.05) { 0 } else { r.below(81) };
+    gen_rc_params_sized(r, one_qubit, false)
+}
+
+fn gen_rc_params_sized(r: &mut Rng, one_qubit: bool, wide: bool) -> RcParams {
+    let qubits = if one_qubit {
+        1
+    } else if wide {
+        *r.pick(&[16usize, 33, 64, 65, 100, 129, 300])
+    } else {
+        2 + r.below(9)
+    };
+    let depth = if r.chance(0.05) {
+        0
+    } else if wide {
+        *r.pick(&[100usize, 300, 1030, 2500]) + r.below(40)
+    } else {
+        r.below(81)
+    };
     let mode = if one_qubit { 0 } else { r.below(4) as u8 };
     let mut p = [0f32; 5];
     match mode {
@@ -165,7 +181,9 @@ fn gen_rc_params(r: &mut Rng, one_qubit: bool) -> RcParams {
 
 fn check_random_circuit(family: &'static str, index: u64, r: &mut Rng, one_qubit: bool) {
     let c = ctx();
-    let p = gen_rc_params(r, one_qubit);
+    let p = if family == "random-circuit-wide" { gen_rc_params_sized(r, false, true) } else { gen_rc_params(r, one_qubit) };
+    c.maximum("random-circuit:max-qubits", p.qubits as u64);
+    c.maximum("random-circuit:max-depth", p.depth as u64);
     let params = json!({"seed": p.seed, "qubits": p.qubits, "depth": p.depth, "p_cnot,p_cz,p_h,p_s,p_t": p.p, "mode": p.mode});
     c.count(&format!("random-circuit:mode{}", p.mode), 1);
     let pp = p.clone();
@@ -491,12 +509,25 @@ fn pg_build(p: &PgParams) -> Circuit {
 }
 
 fn check_pauli_gadget(family: &'static str, index: u64, r: &mut Rng) {
+    check_pauli_gadget_sized(family, index, r, false)
+}
+
+/// `wide`: 16-300 qubits, up to 60 gadgets, weights mostly far below the qubit count (all the
+/// checks are structural, so size is free)
+fn check_pauli_gadget_sized(family: &'static str, index: u64, r: &mut Rng, wide: bool) {
     let c = ctx();
-    let qubits = 1 + r.below(9);
-    let depth = if r.chance(0.05) { 0 } else { r.below(13) };
-    let min_w = 1 + r.below(qubits);
+    let qubits = if wide { *r.pick(&[16usize, 17, 24, 33, 50, 64, 65, 100, 129, 300]) } else { 1 + r.below(9) };
+    let depth = if r.chance(0.05) { 0 } else { r.below(if wide { 61 } else { 13 }) };
+    let min_w = if wide && r.chance(0.8) { 1 + r.below(4) } else { 1 + r.below(qubits) };
     let single_weight = r.chance(0.25);
-    let max_w = if single_weight { min_w } else { min_w + r.below(qubits - min_w + 1) };
+    let max_w = if single_weight {
+        min_w
+    } else if wide && r.chance(0.8) {
+        (min_w + r.below(4)).min(qubits)
+    } else {
+        min_w + r.below(qubits - min_w + 1)
+    };
+    c.maximum("pauli-gadget:max-qubits", qubits as u64);
     let denom = *r.pick(&[1usize, 2, 3, 4, 5, 6, 7, 8, 9, 10, 12, 16, 32]);
     let p = PgParams { seed: r.next_u64(), qubits, depth, min_w, max_w, denom, single_weight };
     let params = json!({"seed": p.seed, "qubits": qubits, "depth": depth, "min_weight": min_w, "max_weight": max_w, "phase_denom": denom, "weight_setter": single_weight});
@@ -647,12 +678,14 @@ pub fn run() {
     c.assume("a 1-qubit Circuit::random request without two-qubit gate probability is treated as admissible");
     let n = t.pick(6000usize, 250_000usize);
     par_cases("random-circuit", n, |r, i| check_random_circuit("random-circuit", i, r, false));
+    par_cases("random-circuit-wide", t.pick(300, 20_000), |r, i| check_random_circuit("random-circuit-wide", i, r, false));
     par_cases("random-circuit-one-qubit", t.pick(20, 500), |r, i| check_random_circuit("random-circuit-one-qubit", i, r, true));
     par_cases("hidden-shift", n, |r, i| check_hidden_shift("hidden-shift", i, r, &[6, 8, 10, 12]));
     par_cases("hidden-shift-inadmissible", t.pick(12, 100), |r, _| check_hidden_shift_inadmissible("hidden-shift-inadmissible", r));
     let max_n = 8usize;
     par_cases("stabiliser-state", n, move |r, i| check_stab("stabiliser-state", i, r, max_n));
     par_cases("pauli-gadget", n, |r, i| check_pauli_gadget("pauli-gadget", i, r));
+    par_cases("pauli-gadget-wide", n / 4, |r, i| check_pauli_gadget_sized("pauli-gadget-wide", i, r, true));
     par_cases("pauli-gadget-inadmissible", t.pick(12, 100), |r, _| check_pauli_gadget_inadmissible("pauli-gadget-inadmissible", r));
     c.extra("exhaustive", json!(false));
 }
